@@ -478,6 +478,11 @@ theorem latePolls_pro (st : St) (ms : List Name) : ∀ e ∈ latePolls st ms, is
   obtain ⟨m, _, hm⟩ := List.mem_flatMap.mp he
   exact firstPollOne_pro _ _ e hm
 
+theorem lateWrites_pro (st : St) (ms : List Name) : ∀ e ∈ lateWrites st ms, isProl e = true := by
+  intro e he
+  obtain ⟨m, _, hm⟩ := List.mem_flatMap.mp he
+  exact writeInitParams_pro _ e hm
+
 /-- events of the write / initial-read loop of the start-up sequence -/
 def isInitLoopEv : Ev → Bool
   | .write _ _ => true
@@ -531,6 +536,11 @@ theorem initLoop_il (st : St) : ∀ (ms : List Name), ∀ e ∈ (initLoop st ms)
         · exact writeInitParams_il _ e he
         · exact hp e he
         · exact ih e he
+
+theorem lateWrites_il (st : St) (ms : List Name) : ∀ e ∈ lateWrites st ms, isInitLoopEv e = true := by
+  intro e he
+  obtain ⟨m, _, hm⟩ := List.mem_flatMap.mp he
+  exact writeInitParams_il _ e hm
 
 theorem firstPollOne_pl (c : ModCfg) (b : Bool) : ∀ e ∈ (firstPollOne c b).1, isPollLoopEv e = true := by
   intro e he
@@ -629,9 +639,10 @@ theorem prologue_pro (st : St) (t : Name) : ∀ e ∈ prologue st t, isProl e = 
   simp only at he
   split at he
   · simp only [List.mem_append, List.mem_singleton] at he
-    rcases he with (he | rfl) | he
+    rcases he with ((he | rfl) | he) | he
     · exact initLoop_pro st _ e he
     · rfl
+    · exact lateWrites_pro st _ e he
     · exact latePolls_pro st _ e he
   · split at he
     · simp only [List.mem_append, List.mem_singleton] at he
